@@ -346,7 +346,7 @@ func ruleReaderRebuilt(r *Report) {
 // R-close-flushes (C01, C19): Close rotates + hands off the last memstore before it closes the hand-off channel.
 func ruleCloseFlushes(r *Report) {
 	const rule = "close-flushes"
-	r.Rule(rule, 1, "DB.Close hands the last memstore to the flusher (rotateWalAndFlushMemstore succeeded) before it closes the hand-off channel and waits for the flusher")
+	r.Rule(rule, 2, "DB.Close attempts the final hand-off (rotateWalAndFlushMemstore) before it closes the hand-off channel and waits for the flusher, and reports the error of that hand-off from Close")
 	cl := r.NeedFunc(rule, "simpledb.DB.Close")
 	if cl == nil {
 		return
@@ -367,7 +367,36 @@ func ruleCloseFlushes(r *Report) {
 		}
 		o := &order{r, r.P}
 		A := CallsIn(fn, Keys("simpledb.DB.rotateWalAndFlushMemstore"))
-		o.OnlyAfterSuccess(rule, rule+"/"+FuncKey(fn), fn, "the final rotation / hand-off", A, "closing the hand-off channel", closes, nil)
+		// the hand-off is attempted before the channel is closed; whether it failed is reported at the end of Close
+		// (the shutdown goes on either way: C19 demands that Close releases everything)
+		o.Before(rule, rule+"/"+FuncKey(fn), fn, "the final rotation / hand-off", A, "closing the hand-off channel", closes)
+		key := rule + "/" + FuncKey(fn) + "/error-reported"
+		if len(A) == 0 {
+			r.Missing(rule, key, "no final rotation in Close")
+			return
+		}
+		al := errAliases(A[0])
+		car := errCarriers(cl, func(v ssa.Value) bool { return al[v] })
+		reported := false
+		for _, rs := range returnsOf(cl) {
+			for _, op := range rs.Instr.(*ssa.Return).Results {
+				if car[op] || car[stripIface(op)] || al[op] {
+					reported = true
+				}
+			}
+		}
+		for _, rs := range returnsOf(fn) {
+			for _, op := range rs.Instr.(*ssa.Return).Results {
+				if car[op] || car[stripIface(op)] || al[op] {
+					reported = true
+				}
+			}
+		}
+		if reported {
+			r.OK(rule, key, A[0].Pos(), "the error of the final rotation reaches a return of Close")
+		} else {
+			r.Bad(rule, key, A[0].Pos(), "the error of the final rotation / hand-off is dropped: Close reports success although the last memstore was not handed to the flusher")
+		}
 		return
 	}
 	r.Bad(rule, rule+"/simpledb.DB.Close", cl.Pos(), "Close never closes the hand-off channel")
@@ -1341,4 +1370,228 @@ func uniqKey(r *Report, key string) string {
 		return key
 	}
 	return fmt.Sprintf("%s#%d", key, n+1)
+}
+
+// R-panic-not-parked: "or the process stops" has to be true. log.Panic* unwinds the goroutine and runs its deferred
+// calls first; a deferred send on an unbuffered channel that only Close receives from blocks for ever, the panic never
+// leaves the goroutine, the process keeps running without its flusher / compactor, and the next rotation hangs the
+// database under its write lock. So: in every function that can panic deliberately, no deferred call blocks on a channel
+// that has no buffer.
+func rulePanicNotParked(r *Report) {
+	const rule = "panic-not-parked"
+	r.Rule(rule, 2, "in every simpledb function that stops the process with log.Panic* / panic, no deferred function performs a send on a channel created without capacity (or a receive): the deferred calls run before the panic leaves the goroutine, and a blocked one parks it for ever")
+	p := r.P
+	// capacity of the channel fields of DB, from their make sites
+	capOf := map[string]int64{}
+	for _, fn := range p.FuncsOfPkg("simpledb") {
+		eachInstr(fn, func(s Site) {
+			st, ok := s.Instr.(*ssa.Store)
+			if !ok {
+				return
+			}
+			t, f, _, ok := fieldAddrName(st.Addr)
+			if !ok || t != "simpledb.DB" {
+				return
+			}
+			if mc, ok := st.Val.(*ssa.MakeChan); ok {
+				if n, isC := constInt(mc.Size); isC {
+					capOf[f] = n
+				} else {
+					capOf[f] = -1
+				}
+			}
+		})
+	}
+	for _, fn := range p.FuncsOfPkg("simpledb") {
+		if fn.Parent() != nil {
+			continue
+		}
+		var panics []Site
+		for _, f := range closuresOf(fn) {
+			eachInstr(f, func(s Site) {
+				switch x := s.Instr.(type) {
+				case *ssa.Panic:
+					panics = append(panics, s)
+				case *ssa.Call:
+					if k := CalleeKey(x); strings.HasPrefix(k, "log.Panic") {
+						panics = append(panics, s)
+					}
+				}
+			})
+		}
+		if len(panics) == 0 {
+			continue
+		}
+		r.Saw(fn)
+		key := rule + "/" + FuncKey(fn)
+		bad := ""
+		eachInstr(fn, func(s Site) {
+			d, ok := s.Instr.(*ssa.Defer)
+			if !ok {
+				return
+			}
+			var body *ssa.Function
+			switch v := d.Call.Value.(type) {
+			case *ssa.MakeClosure:
+				body, _ = v.Fn.(*ssa.Function)
+			case *ssa.Function:
+				body = v
+			}
+			if body == nil {
+				return
+			}
+			for _, g := range moduleReach(p, []*ssa.Function{body}) {
+				eachInstr(g, func(t Site) {
+					switch x := t.Instr.(type) {
+					case *ssa.Send:
+						if _, f, _, ok := loadOfField(x.Chan); ok {
+							if c, known := capOf[f]; !known || c == 0 {
+								bad = fmt.Sprintf("the deferred function sends on %s (created without capacity) at %s", f, p.Pos(x.Pos()))
+							}
+						} else {
+							bad = "the deferred function sends on a channel whose capacity is unknown at " + p.Pos(x.Pos())
+						}
+					case *ssa.UnOp:
+						if x.Op == token.ARROW {
+							bad = "the deferred function receives from a channel at " + p.Pos(x.Pos())
+						}
+					}
+				})
+			}
+		})
+		if bad != "" {
+			r.Bad(rule, key, panics[0].Pos(), bad+": when the flush / compaction fails, log.Panicf runs this deferred call before the panic can leave the goroutine; nobody receives until Close, so the process does not stop, the goroutine is gone, and the next memstore rotation blocks for ever while holding the database lock (every Get/Put/Close hangs) — the failure is neither returned nor fatal")
+		} else {
+			r.OK(rule, key, panics[0].Pos(), "deferred calls cannot block the panic")
+		}
+	}
+}
+
+// R-walk-skips-root: filepath.Walk calls the callback for the root itself. Recovery recognises its own folders by
+// name prefix (sstable_…, sstable_compaction…, flush_sstable…); a database directory whose own name starts with one of
+// them is then treated as one: it is wiped as an "unfinished flush", removed as a "malformed compaction", or Open fails
+// parsing its name as a table number. The callbacks must look at the root's children only.
+func ruleWalkSkipsRoot(r *Report) {
+	const rule = "walk-skips-root"
+	r.Rule(rule, 2, "in every filepath.Walk callback of simpledb that classifies entries by a name prefix, the classification is unreachable for the walk root (the path parameter is compared with the root first)")
+	p := r.P
+	for _, fn := range p.FuncsOfPkg("simpledb") {
+		for _, s := range CallsIn(fn, Keys("path/filepath.Walk", "path/filepath.WalkDir")) {
+			args := s.Call().Common().Args
+			if len(args) < 2 {
+				continue
+			}
+			cbv := args[1]
+			for {
+				if ct, ok := cbv.(*ssa.ChangeType); ok {
+					cbv = ct.X
+					continue
+				}
+				break
+			}
+			var cb *ssa.Function
+			switch x := cbv.(type) {
+			case *ssa.MakeClosure:
+				cb, _ = x.Fn.(*ssa.Function)
+			case *ssa.Function:
+				cb = x
+			}
+			if cb == nil || len(cb.Params) == 0 {
+				continue
+			}
+			classify := CallsIn(cb, Keys("strings.HasPrefix"))
+			if len(classify) == 0 {
+				continue
+			}
+			key := uniqKey(r, rule+"/"+FuncKey(fn))
+			r.Saw(cb)
+			// edges on which path == root is known to be false
+			removed := map[Edge]bool{}
+			found := false
+			for _, b := range liveBlocks(cb) {
+				cnd, tS, fS, tE, fE, ok := effCond(b)
+				if !ok {
+					continue
+				}
+				bo, isB := cnd.(*ssa.BinOp)
+				if !isB || (bo.Op != token.EQL && bo.Op != token.NEQ) {
+					continue
+				}
+				if paramOrigin(bo.X) != cb.Params[0] && paramOrigin(bo.Y) != cb.Params[0] {
+					continue
+				}
+				// the "is the root" side
+				if bo.Op == token.EQL && tE {
+					removed[Edge{b, fS}] = true // keep only the root side reachable
+					found = true
+				}
+				if bo.Op == token.NEQ && fE {
+					removed[Edge{b, tS}] = true
+					found = true
+				}
+			}
+			if !found {
+				r.Bad(rule, key, classify[0].Pos(), "the callback classifies entries by name prefix without excluding the walk root: a database directory named flush_sstable… is wiped by every Open (Put, Close, Open, Get → not found), one named sstable_compaction… is removed, one named sstable… makes Open fail (ParseUint) or panic (slice bounds)")
+				continue
+			}
+			// with only the root side left, no classification may be reachable
+			bad := false
+			for _, c := range classify {
+				if siteReachable(c, removed) {
+					bad = true
+				}
+			}
+			if bad {
+				r.Bad(rule, key, classify[0].Pos(), "the name-prefix classification is still reachable for the walk root")
+			} else {
+				r.OK(rule, key, classify[0].Pos(), "the root is skipped before entries are classified by name")
+			}
+		}
+	}
+}
+
+// R-create-truncates: every writer of the library starts writing at offset 0 of the file it creates and reports its own
+// byte count as the file's size; it only truncates what it wrote itself past its final offset. A file that already
+// exists and is longer (an earlier table in a reused folder, the remains of a killed attempt) keeps its old tail: the
+// reader then serves the old records behind the new ones, or fails on the first stale byte, and the metadata's byte
+// sizes do not match the files. So files opened for writing with O_CREATE are truncated on open.
+func ruleCreateTruncates(r *Report) {
+	const rule = "create-truncates"
+	r.Rule(rule, 4, "every os.OpenFile / directio.OpenFile of the module that creates a file for writing (O_CREATE with O_WRONLY or O_RDWR) also passes O_TRUNC (or O_EXCL / O_APPEND); named exception: the direct-I/O probe on a fresh temp file")
+	p := r.P
+	exempt := map[string]string{"recordio.IsDirectIOAvailable": "probe on a file just created by os.CreateTemp"}
+	const (
+		oWRONLY = 0x1
+		oRDWR   = 0x2
+		oAPPEND = 0x400
+		oCREATE = 0x40
+		oEXCL   = 0x80
+		oTRUNC  = 0x200
+	)
+	for _, fn := range p.ModuleFuncs() {
+		for _, s := range CallsIn(fn, func(k string) bool { return k == "os.OpenFile" || strings.HasSuffix(k, "directio.OpenFile") }) {
+			args := s.Call().Common().Args
+			if len(args) < 2 {
+				continue
+			}
+			fl, ok := constInt(args[1])
+			if !ok {
+				continue
+			}
+			if fl&oCREATE == 0 || fl&(oWRONLY|oRDWR) == 0 {
+				continue
+			}
+			key := uniqKey(r, rule+"/"+FuncKey(fn))
+			r.Saw(fn)
+			if why, ex := exempt[FuncKey(outermost(fn))]; ex {
+				r.OK(rule, key, s.Pos(), "exempt (named): "+why)
+				continue
+			}
+			if fl&(oTRUNC|oEXCL|oAPPEND) != 0 {
+				r.OK(rule, key, s.Pos(), "an existing file is truncated (or refused / appended to) on open")
+			} else {
+				r.Bad(rule, key, s.Pos(), "a file is created for writing without O_TRUNC: when it already exists and is longer than what this writer writes (a folder that held a larger table before, the remains of a killed attempt), the old tail stays — the table then serves old records behind the new ones or cannot be opened, and DataBytes / IndexBytes disagree with the file sizes")
+			}
+		}
+	}
 }
